@@ -85,7 +85,10 @@ func runC12(p *Prog, r *Report) {
 	}
 	gtn := p.TypeFunc(pkgRS, "", "getTestCaseName")
 	r.Sites++
-	r.Check(guardedBy(serve, func(a Atom) bool { m, v := boolTestOn(a, isCallResult(func(c *ssa.CallCommon) bool { return calleeObj(c) == gtn })); return m && v }),
+	r.Check(guardedBy(serve, func(a Atom) bool {
+		m, v := boolTestOn(a, isCallResult(func(c *ssa.CallCommon) bool { return calleeObj(c) == gtn }))
+		return m && v
+	}),
 		"all-aspects.requires-name", "R-GUARD", p.InstrPos(serve), "the handler runs only on the getTestCaseName ok edge", "a request without a test name can reach the wrapped handler (it must be rejected outright: no feedback can be attributed)")
 	pairs := map[string]string{"X-Expect-Http-Version": "checkHTTPVersion", "X-Expect-Protocol": "checkProtocol", "X-Expect-Codec": "checkCodec", "X-Expect-Compression": "checkCompression"}
 	readerEnum := map[string]string{} // canonical header -> enum type
@@ -110,7 +113,10 @@ func runC12(p *Prog, r *Report) {
 				ex, isEx := cc.Args[0].(*ssa.Extract)
 				ok = isEx && ex.Tuple == ssa.Value(ev) && ex.Index == 0 &&
 					guardedBy(calls[0], func(a Atom) bool {
-						m, v := boolTestOn(a, func(x ssa.Value) bool { e2, ok := x.(*ssa.Extract); return ok && e2.Tuple == ssa.Value(ev) && e2.Index == 1 })
+						m, v := boolTestOn(a, func(x ssa.Value) bool {
+							e2, ok := x.(*ssa.Extract)
+							return ok && e2.Tuple == ssa.Value(ev) && e2.Index == 1
+						})
 						return m && v
 					}) && precededBy(serve, func(in ssa.Instruction) bool { return in == ssa.Instruction(ev) }) && !reachesInstr(serve, calls[0])
 			}
@@ -188,7 +194,10 @@ func runC12(p *Prog, r *Report) {
 			x, isLen := lenArg(a.X)
 			f := loadedField(canon(x))
 			return isZ && z == 0 && isLen && f != nil && f.Name() == "Trailer"
-		}) && precededBy(in, func(x ssa.Instruction) bool { c := callCommon(x); return c != nil && isCallToNamed(c, "io", "", "Copy") && reachesInstr(serve, x) }) {
+		}) && precededBy(in, func(x ssa.Instruction) bool {
+			c := callCommon(x)
+			return c != nil && isCallToNamed(c, "io", "", "Copy") && reachesInstr(serve, x)
+		}) {
 			okTr = true
 		}
 	})
@@ -504,7 +513,10 @@ func runC12(p *Prog, r *Report) {
 		r.Sites++
 		hdrConst, _ := constString(callCommon(gh).Args[1])
 		present := func(a Atom) bool {
-			m, v := boolTestOn(a, func(x ssa.Value) bool { ex, ok := x.(*ssa.Extract); return ok && ex.Tuple == gh.(ssa.Value) && ex.Index == 1 })
+			m, v := boolTestOn(a, func(x ssa.Value) bool {
+				ex, ok := x.(*ssa.Extract)
+				return ok && ex.Tuple == gh.(ssa.Value) && ex.Index == 1
+			})
 			return m && v
 		}
 		isDel := func(in ssa.Instruction) bool {
